@@ -476,7 +476,8 @@ theorem Labs.zip_mem {c : CDB} : ∀ {ls xs : List Nat}, Labs c ls xs → ∀ p,
 /-- symmetry and inferral strategies produce rules with exactly one child (the searcher indexes `children[0]`) -/
 structure WFU (u : Universe) : Prop where
   sym : ∀ σ, σ ∈ u.sym → ∀ x r, r ∈ u.apply σ x → r.children.length = 1
-  inf : ∀ σ, σ ∈ u.inferral → ∀ x r, r ∈ u.apply σ x → r.children.length = 1
+  /-- an inferral rule has a first child (the searcher carries on with `children[0]`); it may have more -/
+  inf : ∀ σ, σ ∈ u.inferral → ∀ x r, r ∈ u.apply σ x → 0 < r.children.length
   /-- the strategy contract on emptiness: children not declared possibly empty are not empty -/
   ne : ∀ σ x r, r ∈ u.apply σ x → r.flags.possiblyEmpty = false → ∀ c, c ∈ r.children → u.empty.getD c false = false
   /-- a class and its symmetric images are empty together -/
@@ -599,7 +600,7 @@ theorem Labs.single {c : CDB} {ends xs : List Nat} (h : Labs c ends xs) (h1 : xs
     | nil => rfl
     | cons _ _ => simp at h1
 
-theorem Labs.head {c : CDB} {ends xs : List Nat} (h : Labs c ends xs) (h1 : xs.length = 1) : lab c ends.head! xs.head! := by
+theorem Labs.head {c : CDB} {ends xs : List Nat} (h : Labs c ends xs) (h1 : 0 < xs.length) : lab c ends.head! xs.head! := by
   cases h with
   | nil => simp at h1
   | cons a t => exact a
@@ -615,7 +616,7 @@ theorem symStep_good {u : Universe} (hw : WFU u) (b : Bool) (σ x l : Nat) (hσ 
     obtain ⟨e1, l1, l2, l3, l4, l5, l6, l7, l8⟩ := labelRule_spec acc.1 x l r s1 start ends hlr hl
     have h1 : Good u s0 s1 := h.grow l3 e1 l4 (l5 h.1.nd) l6 l7 (l8 u h.1.cache)
     have hs := Labs.single l2 (hw.sym σ hσ x r hr)
-    have hc1 := Labs.head l2 (hw.sym σ hσ x r hr)
+    have hc1 := Labs.head l2 (by rw [hw.sym σ hσ x r hr]; exact Nat.one_pos)
     have hmem : r.children.head! ∈ r.children := by
       have := hw.sym σ hσ x r hr
       cases hch : r.children with
